@@ -179,6 +179,18 @@ pub fn compound_preds(tier: &str) -> Vec<Pred> {
         v.push(Pred::Or(Box::new(Pred::Not(b(x))), Box::new(Pred::Not(b(z)))));
         v.push(Pred::Not(Box::new(Pred::Not(b(x)))));
     }
+    // ORs over one field that mix a range with two equalities, the range first (`r OR e1 OR e2`) and
+    // the equalities parenthesised (`(e1 OR e2) OR r`): a planner that folds same-field equalities into
+    // a value list must keep the range apart
+    let cmp = |f: &str, op: Op, l: Lit| Pred::Cmp(f.into(), op, l);
+    for (r, e1, e2) in [
+        (cmp("k", Op::Gt, Lit::Int(3)), cmp("k", Op::Eq, Lit::Int(-3)), cmp("k", Op::Eq, Lit::Int(0))),
+        (cmp("k", Op::Lte, Lit::Int(0)), cmp("k", Op::Eq, Lit::Int(3)), cmp("k", Op::Eq, Lit::Int(5))),
+        (cmp("d", Op::Gte, Lit::Int(1700006400)), cmp("d", Op::Eq, Lit::Int(1700000000)), cmp("d", Op::Eq, Lit::Int(1699900000))),
+    ] {
+        v.push(Pred::Or(b(&r), Box::new(Pred::Or(b(&e1), b(&e2)))));
+        v.push(Pred::Or(Box::new(Pred::Or(b(&e1), b(&e2))), b(&r)));
+    }
     v
 }
 
